@@ -10,11 +10,11 @@ LEVEL = "exploration"
 SHARDS = {"quick": 16, "thorough": 16}
 RULE = (
     "In one running process, generated sequences of events over a generated program: re-define a memento or plain function (any edit kind of C01: literals, nested constants, defaults, "
-    "set/tuple members, call-edge retarget, hide/unhide), rebind a tracked variable, mutate a list/dict in place, define a symbol that was referenced but undefined (or bound to an opaque placeholder object) so far, move a function to another cluster, replace a memento "
+    "set/tuple members, call-edge retarget, hide/unhide), rebind a tracked variable, mutate a list/dict in place, define a symbol that was referenced but undefined (or bound to an opaque placeholder object) so far, move a function to another cluster, rebind a function's name to its underlying plain function and back to the saved memento object (plain assignments), replace a memento "
     "function by a plain one and back, lock the clusters around a variable change, with a version query of every memento function after every event (or only at the end), plus queries through "
     "freshly created modifier clones (partial, force_local, with_context_args), through fn_reference() and through an unregistered MementoFunction(fn, register_fn=False). Oracle: a fresh forked "
     "process builds the resulting program (the final namespace: latest definition of each name, each as its own cell, in definition order) and computes the versions. A query must succeed and equal the fresh value, except while the cluster is locked "
-    "(then it must only not raise). Generators: all event sequences of length <= 2 (quick) / 3 (thorough) over a fixed 3-function/1-variable program with a 10-event alphabet (exhaustive) + Hypothesis "
+    "(then it must only not raise). Generators: all event sequences of length <= 2 (quick) / 3 (thorough) over a fixed 3-function/1-variable program with a 11-event alphabet (exhaustive) + Hypothesis "
     "sequences of up to 6/10 events over generated programs. Non-trivial = a query separated from the previous query of the same function by an event that changes that function's fresh version; "
     "distinct by (program, events)."
 )
@@ -61,6 +61,7 @@ SMALL_EVENTS = [
     {"ev": "swap", "name": "f1"},
     {"ev": "lockedit", "edit": {"kind": "var", "site": 0, "delta": 2}},
     {"ev": "recluster", "name": "f1"},
+    {"ev": "unwrap", "name": "f1"},
 ]
 
 
@@ -91,6 +92,7 @@ def _plan(case):
                 cells.append([info["target_mod"], info["stmt"]])
             for name in info["cells"]:
                 d = progs.find(p2, name)
+                d.pop("unwrapped", None)   # its definition is executed again: the saved object is obsolete
                 if not d.get("late"):
                     cells.append([d["mod"], progs.render_def(p2, d)])
             if kind == "lockedit":
@@ -119,6 +121,25 @@ def _plan(case):
             d["cluster"] = None if d.get("cluster") else "c"
             d["base"] = {"e": "add", "a": d["base"], "b": {"e": "lit", "v": i + 1}}
             steps.append({"prog": p2, "cells": [[d["mod"], progs.render_def(p2, d)]], "lock": None, "label": "recluster", "applied": True})
+        elif kind == "unwrap":
+            # rebind the name of a memento function to its underlying plain function (and back, if it is already unwrapped):
+            # no definition is executed, only an assignment
+            import copy
+            p2 = copy.deepcopy(cur)
+            cands = [d for d in progs.fns(p2) if not d.get("late") and d["name"] != case.get("clone_fn") and (d["memento"] or d.get("unwrapped"))]
+            if not cands:
+                continue
+            d = next((x for x in cands if x["name"] == ev.get("name")), None) or cands[ev.get("idx", 0) % len(cands)]
+            if d.get("unwrapped"):
+                d["memento"], d["cluster"] = True, d.pop("unwrapped")["cluster"]
+                cell = "%s = _verif_saved_%s\n" % (d["name"], d["name"])
+                label = "rebind-to-saved-memento"
+            else:
+                d["unwrapped"] = {"cluster": d.get("cluster")}
+                d["memento"], d["cluster"] = False, None
+                cell = "_verif_saved_%s = %s\n%s = %s.fn\n" % (d["name"], d["name"], d["name"], d["name"])
+                label = "rebind-to-plain-fn"
+            steps.append({"prog": p2, "cells": [[d["mod"], cell]], "lock": None, "label": label, "applied": True})
         elif kind == "swap":
             import copy
             p2 = copy.deepcopy(cur)
@@ -126,6 +147,7 @@ def _plan(case):
             if not cands:
                 continue
             d = next((x for x in cands if x["name"] == ev.get("name")), None) or cands[ev.get("idx", 0) % len(cands)]
+            d.pop("unwrapped", None)
             d["memento"] = not d["memento"]
             if not d["memento"]:
                 d["version"] = None
@@ -210,6 +232,7 @@ def strategy(thorough):
         st.builds(lambda i: {"ev": "define", "idx": i}, st.integers(0, 3)),
         st.builds(lambda i: {"ev": "swap", "idx": i}, st.integers(0, 5)),
         st.builds(lambda i: {"ev": "recluster", "idx": i}, st.integers(0, 5)),
+        st.builds(lambda i: {"ev": "unwrap", "idx": i}, st.integers(0, 5)),
         st.builds(lambda e: {"ev": "lockedit", "edit": dict(e, kind="var")}, progs.edit_strategy()),
     )
 
@@ -238,6 +261,6 @@ def run_shard(ctx):
                                 nshards=ctx.nshards, deadline_s=dl(0.6))
     stats.extra["exhaustive_sequences"] = stats.evaluations
     stats.extra["small_scope_complete"] = bool(complete)
-    core.hyp_search(strategy(thorough), ex, stats, max_examples=250 if thorough else 20, seed=core.hash64(ctx.seed, ID, ctx.shard),
+    core.hyp_search(strategy(thorough), ex, stats, max_examples=250 if thorough else 40, seed=core.hash64(ctx.seed, ID, ctx.shard),
                     findings=ctx.findings, deadline_s=dl(1.0))
     return stats
